@@ -350,6 +350,30 @@ def r5_sorted_registration(P, rep, ctx):
                       message=f"{fi.name}() consults self.{fld}, which {[w.qual for w in writers]} do not all update/clear: stale answers after a registration")
         if not extra:
             rep.ok("C16.R5", fi.qual, f"{fi.name} reads only {sorted(reads)}", fi.loc())
+    from .common import require_total
+
+    for q in (f"{PG}.versions", f"{PG}.resolve", f"{PG}.provider", f"{PG}.__contains__", f"{PG}._get_unsafe", "plugin.types.to_ep_name", "plugin.types.from_ep_name", "plugin.types.to_semver_str", "plugin.types.from_semver_str", "plugin.metaclass.PluginMetaclassMixin.__new__", "plugin.metaclass.MarkerMixin._mark_class", "plugin.metaclass.UndefVersion._mark_class", "plugin.metaclass.MarkerMixin._is_marked", f"{PR}.supports", f"{PR}.__eq__", f"{PR}.__hash__"):
+        require_total(rep, ctx, "C16.R5", P.func(q))
+    mr = P.func("plugin.util.register_in_group").nested.get("manual_register")
+    if mr is None:
+        raise AnalysisError("register_in_group.manual_register not found")
+    require_total(rep, ctx, "C16.R5", mr)
+    gmr = ctx.cfg(mr)
+    for stmt_txt, what in (("pgroup._ENTRY_POINTS[ep_name] = None", "the entry point name is recorded"), ("pgroup._LOADED_PLUGINS[pg_ref] = plugin", "the class is recorded as loaded plugin"), ("pgroup._load_plugin(ep_name, plugin)", "the plugin is checked and initialised")):
+        ns = [n.idx for n in gmr.nodes if n.kind == "stmt" and norm(n.stmt) == stmt_txt]
+        rep.check(bool(ns) and gmr.every_path_passes(ns, gmr.exit), "C16.R5", mr.qual, f"manual registration: {what}", mr.loc(), construct=stmt_txt, message=f"register_in_group no longer does `{stmt_txt}` on every path")
+    ae = P.func(f"{PG}._add_ep")
+    gae = ctx.cfg(ae)
+    ns = [n.idx for n in gae.nodes if n.kind == "stmt" and norm(n.stmt) == "self._ENTRY_POINTS[ep_name] = ep_obj"]
+    rep.check(bool(ns) and gae.every_path_passes(ns, gae.exit), "C16.R5", ae.qual, "every added entry point is recorded under its entry point name", ae.loc(), construct="_ENTRY_POINTS store", message="_add_ep does not record the entry point")
+    vf = P.func(f"{PG}.versions")
+    gvf = ctx.cfg(vf)
+    vt = [t.idx for t in gvf.nodes if t.kind == "test" and norm(t.exprs[0]) == "version is None"]
+    rep.check(bool(vt) and all(all(isinstance(gvf.nodes[b].stmt, ast.Return) and norm(gvf.nodes[b].stmt.value) == "refs" for b, l in gvf.succ[t] if l == "T") for t in vt), "C16.R5", vf.qual, "without a requested version every registered version is returned, with one only the compatible ones", vf.loc(), construct="version filter condition", message="versions() applies the compatibility filter on the wrong branch")
+    rf = P.func(f"{PG}.resolve")
+    grf = ctx.cfg(rf)
+    rt = [t.idx for t in grf.nodes if t.kind == "test" and norm(t.exprs[0]).strip("()") == "refs := self.versions(p_name, version"]
+    rep.check(bool(rt) and all(all(isinstance(grf.nodes[b].stmt, ast.Return) and norm(grf.nodes[b].stmt.value) == "refs[-1]" for b, l in grf.succ[t] if l == "T") for t in rt), "C16.R5", rf.qual, "resolve returns the newest compatible version when there is one, else None", rf.loc(), construct="resolve condition", message="resolve() returns the last element on the wrong branch")
     fi = P.func(f"{PG}.keys")
     ok = any(isinstance(x, ast.For) and norm(x.iter) == "self._VERSIONS.values()" for x in walk_local(fi.node)) and any(isinstance(x, ast.YieldFrom) for x in walk_local(fi.node))
     rep.check(ok, "C16.R5", fi.qual, "keys() lists every registered version (yield from each list)", fi.loc(), construct="keys()", message="keys() does not iterate all version lists")
